@@ -61,6 +61,7 @@ typedef struct T {
 	long steps_taken;
 	long kill_after;          /* < 0: never killed */
 	long ops_done;            /* vs_op_done() calls: whole operations of the client program completed */
+	long last_run;            /* value of `steps` when this thread was last scheduled */
 } T;
 
 typedef struct { char name[48]; char *ptr; size_t size; size_t elem; int weak; } Reg;
@@ -88,6 +89,7 @@ static int policy;               /* 0 random, 1 pct, 2 replay, 3 prefix then non
                                    * 4 operation sequence (each token: run that thread for one whole operation),
                                    *   then as 3 */
 static int opseq_tid = -1; static long opseq_target; static long opseq_steps = -1;
+static long opseq_op_steps;      /* steps of the current operation (an operation that retries for ever ends the sequence) */
 static int trace_enabled;         /* record the enabled set of every step (for systematic exploration) */
 static uint32_t *en_masks; static long n_en_masks, cap_en_masks;
 static int last_tid = -1;
@@ -283,8 +285,9 @@ static void pick_next(void)
 			if (opseq_tid >= 0) {
 				T *t = threads[opseq_tid];
 				if (t->wait_kind == W_DONE || killed(t) || t->ops_done >= opseq_target) { opseq_tid = -1; continue; }
-				if (enabled(t)) { n = t; break; }
-				/* blocked inside the operation: the sequence cannot be followed any further */
+				if (enabled(t) && !t->spinning && ++opseq_op_steps <= 400) { n = t; break; }
+				/* blocked (or spinning on a condition only another thread can change, or retrying
+				 * without end) inside the operation: the sequence cannot be followed any further */
 				opseq_steps = steps; policy = 3; replay_pos = NULL; break;
 			}
 			while (replay_pos && *replay_pos == ' ') replay_pos++;
@@ -292,7 +295,7 @@ static void pick_next(void)
 			long tid = (replay_pos && *replay_pos) ? strtol(replay_pos, &e, 10) : -1;
 			if (tid < 0 || tid >= nthreads || e == replay_pos) { opseq_steps = steps; policy = 3; replay_pos = NULL; break; }
 			replay_pos = e;
-			opseq_tid = (int)tid; opseq_target = threads[tid]->ops_done + 1;
+			opseq_tid = (int)tid; opseq_target = threads[tid]->ops_done + 1; opseq_op_steps = 0;
 		}
 	}
 	int use_replay = (policy == 2) && !n;
@@ -364,7 +367,14 @@ static void pick_next(void)
 				/* non-preemptive continuation: keep running the last thread while it can */
 				n = NULL;
 				for (int i = 0; i < cnt; i++) if (set[i]->tid == last_tid) n = set[i];
-				if (!n) { n = set[0]; for (int i = 1; i < cnt; i++) if (set[i]->tid < n->tid) n = set[i]; }
+				/* otherwise the candidate that has not run for the longest time (lowest tid among
+				 * equals): with "lowest tid first" two retrying threads that yield to each other
+				 * starve a third one for ever */
+				if (!n) {
+					n = set[0];
+					for (int i = 1; i < cnt; i++)
+						if (set[i]->last_run < n->last_run || (set[i]->last_run == n->last_run && set[i]->tid < n->tid)) n = set[i];
+				}
 			} else if (policy == 1) {
 				for (int k = 0; k < pct_depth; k++)
 					if (pct_cp[k] == steps) {
@@ -393,6 +403,7 @@ static void pick_next(void)
 	}
 	n->flag_spurious = (flag == 1);
 	n->steps_taken++;
+	n->last_run = steps;
 	last_tid = n->tid;
 	sched_add(n->tid, flag);
 	n->go = 1;
